@@ -416,10 +416,12 @@ class ScoredCollector(Collector):
             # If we're using block quality optimizations, and the checkquality
             # flag is true, try to skip ahead to the next block with the
             # minimum required quality
-            if usequality and checkquality and minscore is not None:
+            # (Only against a positive threshold: while the top N is not full
+            # the threshold is 0, and a posting that scores 0 - e.g. through a
+            # zero boost - still is a hit.)
+            if usequality and checkquality and minscore:
                 self.skipped_times += matcher.skip_to_quality(minscore)
-                if minscore:
-                    self.pruned = True
+                self.pruned = True
                 # Skipping ahead might have moved the matcher to the end of the
                 # posting list
                 if not matcher.is_active():
